@@ -314,8 +314,35 @@ func c03fonts(c *mon.Ctx) {
 		case "glyf":
 			var n int64
 			var err error
-			if k.Guard("WriteTrueTypePDF", func() { n, err = f.WriteTrueTypePDF(buf) }) {
+			// optional extra tables: (name, data) pairs that are included and
+			// override the default tables
+			var extra []any
+			extraWant := map[string][]byte{}
+			if r.IntN(2) == 0 {
+				for _, tag := range []string{"OS/2", "name", "xtra", "cvt ", "post"}[r.IntN(3):] {
+					b := make([]byte, 1+r.IntN(40))
+					for i := range b {
+						b[i] = byte(r.Uint32())
+					}
+					extra = append(extra, tag, b)
+					extraWant[tag] = append([]byte{}, b...)
+				}
+				k.Class("writer:WriteTrueTypePDF:extra-tables")
+			}
+			if k.Guard("WriteTrueTypePDF", func() { n, err = f.WriteTrueTypePDF(buf, extra...) }) {
 				return
+			}
+			if ef, _ := sfntwalk.Walk(buf.Bytes()); ef != nil {
+				for tag, want := range extraWant {
+					if t := ef.Get(tag); t == nil || !bytes.Equal(t.Data, want) {
+						k.Fail("mismatch", "pdf-writer:extra-table", "WriteTrueTypePDF: extra table %q is missing from the output or differs (%s)", tag, desc)
+					}
+				}
+				for _, tag := range []string{"glyf", "loca", "head", "hhea", "hmtx", "maxp"} {
+					if ef.Get(tag) == nil {
+						k.Fail("mismatch", "pdf-writer:required-table", "WriteTrueTypePDF output lacks table %q (%s)", tag, desc)
+					}
+				}
 			}
 			k.Eval()
 			if err != nil || n != int64(buf.Len()) {
@@ -348,6 +375,6 @@ func c03fonts(c *mon.Ctx) {
 			k.Sample(desc + fmt.Sprintf(" file=%d bytes", len(out)))
 		}
 	})
-	c.Require("writer:Write:glyf", "writer:Write:cff", "writer:Write:cid", "writer:WriteTrueTypePDF", "writer:WriteOpenTypeCFFPDF",
+	c.Require("writer:Write:glyf", "writer:Write:cff", "writer:Write:cid", "writer:WriteTrueTypePDF", "writer:WriteTrueTypePDF:extra-tables", "writer:WriteOpenTypeCFFPDF",
 		"ximage:cmap-compared", "ximage:simple-outline-compared", "ximage:composite-outline-compared", "ximage:cff-outline-compared", "ximage:name-compared")
 }
